@@ -283,7 +283,9 @@ def coq_make(jobs=16, timeout=3000, clean=False, modules=None):
         if modules:
             targets = [os.path.relpath(path_of(m), COQ)[:-2] + ".vo" for m in modules
                        if os.path.exists(path_of(m))]
-        r = subprocess.run(["timeout", str(timeout), "make", "-k", "-f", "Makefile.coq", "-j%d" % jobs] + targets,
+        per_file = int(os.environ.get("VERIF_COQC_TIMEOUT", "900"))
+        r = subprocess.run(["timeout", str(timeout), "make", "-k", "-f", "Makefile.coq", "-j%d" % jobs,
+                            "COQC=timeout %d coqc" % per_file] + targets,
                            cwd=COQ, stdout=subprocess.PIPE, stderr=subprocess.STDOUT, text=True)
         return r.returncode == 0, r.stdout
 
